@@ -720,7 +720,7 @@ def miri_args(cfg, mode="concurrent"):
         a += ["--stagger", str(cfg["stagger"])]
     if cfg.get("stamped"):
         a.append("--stamped")
-    if cfg.get("main_participates") and mode == "concurrent":
+    if cfg.get("main_participates") and mode in ("concurrent", "serial", "baton"):
         a.append("--main-participates")
     return a
 
@@ -772,7 +772,7 @@ class SeqRef:
         self.last_prints = {}  # PRINT lines of the most recent native() call
 
     def native(self, cfg, mode, extra=()):
-        key = (cfg["threads"], cfg["hseed"], cfg["ops"], cfg.get("long", 0), cfg.get("bulk", 0), cfg.get("churn", 0), mode, tuple(extra))
+        key = (cfg["threads"], cfg["hseed"], cfg["ops"], cfg.get("long", 0), cfg.get("bulk", 0), cfg.get("churn", 0), bool(cfg.get("main_participates")), mode, tuple(extra))
         if key not in self.cache:
             c = dict(cfg, stamped=False)
             rc, so, se = run([self.binary] + miri_args(c, mode) + list(extra), timeout=300)
